@@ -1178,6 +1178,21 @@ func Catalogue(t *testing.T) []Unit {
 	})
 	add("SignedSyncContributionAndProof", true, 0, false, true, core.DutySyncContribution, func() any { return testutil.RandomCoreSignedSyncContributionAndProof() })
 	add("Signature", true, 0, false, true, core.DutySignature, func() any { return testutil.RandomCoreSignature() })
+	// every unit with OPTIONAL scalar fields that its generator leaves nil also occurs with those fields set
+	// (a copy path that treats such a field separately - or forgets it - is only visible then)
+	for _, u := range append([]Unit{}, us...) {
+		if _, n := FillOptional(u.Gen()); n == 0 {
+			continue
+		}
+		u2, g := u, u.Gen
+		if strings.Contains(u.Name, "/") {
+			u2.Name = u.Name + "-optset"
+		} else {
+			u2.Name = u.Name + "/optset"
+		}
+		u2.Gen = func() any { v, _ := FillOptional(g()); return v }
+		us = append(us, u2)
+	}
 	small := us
 	us = nil
 	for i := 0; i < len(big) || i < len(small); i++ {
@@ -1189,6 +1204,81 @@ func Catalogue(t *testing.T) []Unit {
 		}
 	}
 	return us
+}
+
+// FillOptional returns a private copy of v in which every nil pointer to a scalar (an OPTIONAL field that the generators
+// leave unset, e.g. the validator index of a versioned attestation) points to a fresh non-zero value, and how many were set.
+// Nil pointers to structs stay nil (they select the version of a versioned container).
+func FillOptional[T any](v T) (T, int) {
+	src := reflect.ValueOf(&v).Elem()
+	dst := reflect.New(src.Type()).Elem()
+	dst.Set(src)
+	deepFix(dst, 0)
+	n := fillOpt(dst, 0)
+	return dst.Interface().(T), n
+}
+
+func fillOpt(rv reflect.Value, depth int) int {
+	if depth > 200 {
+		return 0
+	}
+	rv = rw(rv)
+	switch rv.Kind() {
+	case reflect.Pointer:
+		et := rv.Type().Elem()
+		if rv.IsNil() {
+			if !scalarKind(et.Kind()) || !rv.CanSet() {
+				return 0
+			}
+			np := reflect.New(et)
+			switch {
+			case np.Elem().CanInt():
+				np.Elem().SetInt(7)
+			case np.Elem().CanUint():
+				np.Elem().SetUint(7)
+			case et.Kind() == reflect.Bool:
+				np.Elem().SetBool(true)
+			default:
+				return 0
+			}
+			rv.Set(np)
+			return 1
+		}
+		if et.Kind() == reflect.Struct && opaque(et) {
+			return 0
+		}
+		return fillOpt(rv.Elem(), depth+1)
+	case reflect.Slice, reflect.Array:
+		if scalarKind(rv.Type().Elem().Kind()) {
+			return 0
+		}
+		n := 0
+		for i := 0; i < rv.Len(); i++ {
+			n += fillOpt(rv.Index(i), depth+1)
+		}
+		return n
+	case reflect.Struct:
+		if opaque(rv.Type()) || rv.Type() == bigIntType {
+			return 0
+		}
+		n := 0
+		for i := 0; i < rv.NumField(); i++ {
+			n += fillOpt(rv.Field(i), depth+1)
+		}
+		return n
+	case reflect.Interface:
+		if rv.IsNil() || !rv.CanSet() {
+			return 0
+		}
+		c := reflect.New(rv.Elem().Type()).Elem()
+		c.Set(rv.Elem())
+		n := fillOpt(c, depth+1)
+		if n > 0 {
+			rv.Set(c)
+		}
+		return n
+	}
+	return 0
 }
 
 // SignedUnits returns the SignedData units of the tier that travel under a duty type.
